@@ -17,7 +17,7 @@ use std::ops::Range;
 pub static INFO: PropInfo = PropInfo {
     id: "C16",
     level: "fault_enumeration",
-    rule: "enumerated sub-spaces (exhaustive: true refers to these only): (E1) all 4096 subsets of a 12-element universe of packet sequence numbers, in 3 numberings, as ack sets: codec round trip of the range list, and fed through process_packet (ascending and one seeded shuffled order) to a fresh endpoint whose emitted Ack packet, decoded, must equal the recorded set (hook) and the fed set; (E2) every netcode packet kind x sequence-length class 0..8 bytes (sequence 0, 1, 2^8k-1, 2^8k) x payload length {0,1,1299,1300}: decode(encode(v)) = (sequence, v) with the crate's codec. Sampled: (S1) random renet packets of every kind with every field on varint boundaries (63/64, 16383/16384, 2^30, 2^62-1), 0..n messages of 0..1200 bytes, sorted non-adjacent range lists of 1..64 ranges incl. single-element ranges and gaps of exactly one: decode(encode(v)) == v; (S2) random and mutated byte strings: if decode(b) = v then decode(encode(v)) = v; (S3) sparse sequence sets of up to 90 ranges fed to an endpoint: emitted Ack == recorded set, subset of the fed set, <= 64 ranges, equal to the fed set whenever it never needed more than 64 ranges; beyond 64 ranges it must contain the highest sequence fed and the one fed last (unless below everything recorded) and, for ascending or descending feeds, equal exactly the 64 highest ranges of the fed set; (S4) connect tokens with 1..32 IPv4/IPv6 addresses through write/read and seal/open, and mutated token bytes through read -> write -> read. Non-trivial = a value with at least one multi-byte varint / non-empty body / >= 2 ranges / >= 2 addresses; distinct = distinct value fingerprints.",
+    rule: "enumerated sub-spaces (exhaustive: true refers to these only): (E1) all 4096 subsets of a 12-element universe of packet sequence numbers, in 3 numberings, as ack sets: codec round trip of the range list, and fed through process_packet (ascending and one seeded shuffled order) to a fresh endpoint whose emitted Ack packet, decoded, must equal the recorded set (hook) and the fed set; (E2) every netcode packet kind x sequence-length class 0..8 bytes (sequence 0, 1, 2^8k-1, 2^8k) x payload length {0,1,1299,1300}: decode(encode(v)) = (sequence, v) with the crate's codec. Sampled: (S1) random renet packets of every kind with every field on varint boundaries (63/64, 16383/16384, 2^30, 2^62-1), 0..n messages of 0..1200 bytes, sorted non-adjacent range lists of 1..64 ranges incl. single-element ranges and gaps of exactly one: decode(encode(v)) == v; (S2) random and mutated byte strings: if decode(b) = v then decode(encode(v)) = v; (S3) sparse sequence sets of up to 90 ranges fed to an endpoint: emitted Ack == recorded set, subset of the fed set, <= 64 ranges, equal to the fed set whenever it never needed more than 64 ranges; beyond 64 ranges it must contain the highest sequence fed and the one fed last (unless below everything recorded) and, for ascending or descending feeds, equal exactly the 64 highest ranges of the fed set; (S4) connect tokens with 1..32 IPv4/IPv6 addresses through write/read and seal/open (built through the hook codec, and by ConnectToken::generate with IPv6 scope ids / flow labels set on some addresses), and mutated token bytes through read -> write -> read. Non-trivial = a value with at least one multi-byte varint / non-empty body / >= 2 ranges / >= 2 addresses; distinct = distinct value fingerprints.",
     assumptions: &["values 'the library can build' are generated within the limits the library itself enforces when sending (message <= 1200 bytes in a small packet, slice payload 1..1200, slice index < slice count <= 10^6, <= 64 ack ranges, packet <= 1300 bytes)"],
     gates: &[
         ("ack_subsets_enumerated", 4096),
@@ -26,6 +26,7 @@ pub static INFO: PropInfo = PropInfo {
         ("renet_bytes_decoded_ok", 2000),
         ("ack_feed_cases", 500),
         ("tokens_roundtripped", 200),
+        ("lib_tokens_with_scoped_ipv6", 50),
         ("token_bytes_decoded_ok", 200),
         ("ack_ranges_64", 10),
         ("ack_feed_overflowed_monotone", 50),
@@ -689,6 +690,51 @@ fn tokens(ctx: &Ctx, out: &mut Outcome, run_seed: u64, r: &mut Rng) {
                 run_seed,
                 "token",
             );
+        }
+    }
+    // a token from the library's own generator; IPv6 server addresses may carry a scope id / flow label
+    // (SocketAddrV6 has both, the token format has neither)
+    if r.chance(1, 2) {
+        let mut lib_addrs = addrs.clone();
+        let mut scoped = false;
+        for a in lib_addrs.iter_mut() {
+            if let SocketAddr::V6(v6) = a {
+                if r.chance(1, 2) {
+                    v6.set_scope_id(r.range(1, 40) as u32);
+                    scoped = true;
+                }
+                if r.chance(1, 4) {
+                    v6.set_flowinfo(r.range(1, 1 << 20) as u32);
+                    scoped = true;
+                }
+            }
+        }
+        let gen = watchdog::catch(|| ConnectToken::generate(std::time::Duration::from_secs(now), protocol, expire_in, cid, timeout, lib_addrs.clone(), None, &key));
+        if let Ok(Ok(t)) = gen {
+            out.count("lib_tokens_generated");
+            if scoped {
+                out.count("lib_tokens_with_scoped_ipv6");
+            }
+            let b = nsim::token_bytes(&t);
+            match watchdog::catch(|| ConnectToken::read(&mut &b[..])) {
+                Ok(Ok(t2)) if t2 == t => {}
+                other => {
+                    let first_diff = match &other {
+                        Ok(Ok(t2)) => t.server_addresses.iter().zip(t2.server_addresses.iter()).find(|(x, y)| x != y).map(|(x, y)| format!("{:?} read back as {:?}", x, y)),
+                        _ => None,
+                    };
+                    viol(
+                        ctx,
+                        out,
+                        if scoped { "C16/token-roundtrip/public/ipv6-scope" } else { "C16/token-roundtrip/public" },
+                        "connect tokens round-trip through write/read",
+                        format!("a token built by ConnectToken::generate with {} addresses does not read back equal ({:?})", n, first_diff),
+                        json!({"addresses": lib_addrs.iter().take(6).map(|a| format!("{:?}", a)).collect::<Vec<_>>()}),
+                        run_seed,
+                        "token",
+                    );
+                }
+            }
         }
     }
     // private part seal/open
